@@ -17,6 +17,7 @@
 package groupsig
 
 import (
+	"encoding/hex"
 	"math/big"
 
 	bn_curve "com.tuntun.rangers/node/src/consensus/groupsig/bn256"
@@ -45,8 +46,43 @@ func (bi *BnInt) setHexString(s string) error {
 		return fmt.Errorf("arg failed")
 	}
 	buf := s[len(PREFIX):]
-	bi.v.SetString(buf[:], 16)
+	if !isHexDigits(buf) {
+		return fmt.Errorf("arg failed: not a hex number")
+	}
+	v, ok := new(big.Int).SetString(buf, 16)
+	if !ok {
+		return fmt.Errorf("arg failed: not a hex number")
+	}
+	bi.v.Set(v)
 	return nil
+}
+
+// isHexDigits reports whether s is a non-empty string of hex digits (no sign, space or separator).
+func isHexDigits(s string) bool {
+	if len(s) == 0 {
+		return false
+	}
+	for i := 0; i < len(s); i++ {
+		c := s[i]
+		if !(('0' <= c && c <= '9') || ('a' <= c && c <= 'f') || ('A' <= c && c <= 'F')) {
+			return false
+		}
+	}
+	return true
+}
+
+// decodeHexExact decodes the hex text after PREFIX into exactly n bytes. common.Hex2Bytes drops the
+// decoding error and returns the bytes decoded before the first bad character, so a valid encoding
+// followed by an odd digit or by junk would otherwise be taken for the valid encoding.
+func decodeHexExact(s string, n int) ([]byte, error) {
+	if len(s) < len(PREFIX) || s[:len(PREFIX)] != PREFIX {
+		return nil, fmt.Errorf("arg failed")
+	}
+	buf := s[len(PREFIX):]
+	if len(buf) != 2*n || !isHexDigits(buf) {
+		return nil, fmt.Errorf("arg failed: want %d hex digits", 2*n)
+	}
+	return hex.DecodeString(buf)
 }
 
 func (bi *BnInt) getBigInt() *big.Int {
